@@ -914,7 +914,7 @@ def check_C19(tier, seed):
     nviol = 0
     # Send / Sync: a compile-time fact, checked by compiling the static assertions separately
     vlib.build_harness()
-    p = subprocess.run(["cargo", "build", "--offline", "--quiet", "--bin", "sendsync"], cwd=vlib.HARNESS,
+    p = subprocess.run(["cargo", "build", "--offline", "--quiet", "--bin", "sendsync"], cwd=vlib._harness_dir(),
                        env=dict(os.environ, CARGO_NET_OFFLINE="true"), stdout=subprocess.PIPE, stderr=subprocess.STDOUT, text=True)
     sendsync_ok = p.returncode == 0
     if not sendsync_ok:
